@@ -197,6 +197,18 @@ Theorem C09_max_int_table : forall d,
 Proof. exact max_int_table. Qed.
 Print Assumptions C09_max_int_table.
 
+(* The optional neuropixel_version argument replaces the generation read from the dictionary
+   (and is ignored for non-imec streams). *)
+Theorem C09_max_int_with_table : forall d,
+  max_int_with None d = max_int d /\
+  (forall v, is_imec d = false -> max_int_with (Some v) d = max_int d) /\
+  (forall v, is_imec d = true ->
+     max_int_with (Some v) d =
+       if is_np2 v then match lookup (lit "imMaxInt") d with Some x => py_int x | None => None end
+       else match lookup (lit "imMaxInt") d with Some x => py_int x | None => Some 512 end).
+Proof. exact max_int_with_table. Qed.
+Print Assumptions C09_max_int_with_table.
+
 (* Sampling rate and full-scale conversion read the imec or the ni field. *)
 Theorem C09_fs_int2volt_table : forall d,
   get_fs d = (if is_imec d then lookup (lit "imSampRate") d else lookup (lit "niSampRate") d) /\
